@@ -152,11 +152,24 @@ def custom_name_finding():
     return lc_doc(d2) != lc_doc(d.unified())
 
 
+def alternate_finding():
+    """C07-F2 witness: an identified alternateOf with an attribute"""
+    import prov.model as M
+    from prov.identifier import Namespace
+    EX = Namespace("ex", "http://example.org/")
+    d = M.ProvDocument()
+    d.add_namespace(EX)
+    d.entity(EX["e1"]); d.entity(EX["e2"])
+    d.new_record(M.PROV_ALTERNATE, EX["alt1"], {M.PROV_ATTR_ALTERNATE1: EX["e1"], M.PROV_ATTR_ALTERNATE2: EX["e2"]}, {EX["k"]: "v"})
+    d2 = M.ProvDocument.deserialize(content=d.serialize(format="rdf"), format="rdf")
+    return lc_doc(d2) != lc_doc(d.unified())
+
+
 def run(tier, seed, log, model_runs=True, enlarged=False):
     logging.disable(logging.CRITICAL)
     t0 = time.time()
     rng = random.Random(seed)
-    n = 120 if tier == "quick" else 2500
+    n = 320 if tier == "quick" else 2500
     if enlarged:
         n *= 3
     shuffles = 2 if tier == "quick" else 4
@@ -189,10 +202,11 @@ def run(tier, seed, log, model_runs=True, enlarged=False):
                                   "theorem": "correspondence Rdf.enc_pred / dec_pred ~ provrdf encode_container / decode_container"})
     known = common.load_known_findings()
     known_lines = []
+    witnesses = {"C07-F1": custom_name_finding, "C07-F2": alternate_finding}
     for k in known:
-        if k["property"] == PROP and k["status"] == "open" and k["id"] == "C07-F1":
+        if k["property"] == PROP and k["status"] == "open" and k["id"] in witnesses:
             try:
-                if custom_name_finding():
+                if witnesses[k["id"]]():
                     known_lines.append("%s: %s" % (k["id"], k["what_fails"]))
             except Exception:
                 known_lines.append("%s: %s" % (k["id"], k["what_fails"]))
